@@ -14,6 +14,39 @@ CHECKS = {
    design_ref='DESIGN.md section 6 (C09)',
    note='Trusted: TLC, the Go recorder\'s projection of cache.Cache (exported fields), value abstraction to (id,length). Bounded: depth of the exhaustive part; random part is sampling.',
    technique='TLA+ spec (Cache.tla) model-checked with TLC; model-transition replay + trace validation of cache.Cache by TLC'),
+ 'C03': dict(
+   category='model_checking',
+   text='Vise.tla is an interpreter specification of the VM run loop; ViseMC checks on model programs (all inputs at every HALT, all external results, '
+        'duplicated selectors, wildcard anywhere, relative targets) the ghost invariants AtMostOneInputMove, FirstMatchWins, NoMatchGoesToCatch; every model '
+        'history is replayed on the real engine and every real INCMP / dead-check iteration (model histories + random well-formed programs) is judged by TLC '
+        'against the spec step function applied to its logged pre-state.',
+   design_ref='DESIGN.md section 6 (C03)',
+   note='Trusted: TLC, the verif hook in vm.Run (two add-only lines), the recorder projection. Bounded: request depth of the exhaustive part, program families.',
+   technique='TLA+ interpreter spec (Vise.tla) + TLC model checking + instruction-level trace validation of the real VM'),
+ 'C04': dict(
+   category='model_checking',
+   text='ApplyTarget of Vise.tla transcribes the documented move table; TLC compares the navigation projection (path, index) of EVERY executed instruction '
+        'of every recorded real run with the table applied to the logged pre-state (MOVE, INCMP, CATCH, all target kinds incl. failing ones); model programs '
+        'are explored exhaustively and their histories replayed on the real engine.',
+   design_ref='DESIGN.md section 6 (C04)',
+   note='Trusted: TLC, verif hook, recorder projection of state.State. Whether a conditional move is taken is judged by C03/C06.',
+   technique='TLA+ interpreter spec + TLC model checking + per-instruction trace validation'),
+ 'C05': dict(
+   category='model_checking',
+   text='Vise.tla + Cache.tla state LOAD/RELOAD/MAP and scope semantics; ViseMC checks ScopeLifetime (ghost load level), LimitsHold, MappedVisible on model programs '
+        'with empty / at-limit / over-limit / failing external results; on real runs TLC compares cache frames, accounting, mapped set and the external-call log '
+        'of every iteration with the spec step applied to the logged pre-state.',
+   design_ref='DESIGN.md section 6 (C05)',
+   note='Trusted: TLC, verif hook and accessors (Page.VerifMapped), recording resource. Values abstracted to (id,len).',
+   technique='TLA+ interpreter spec + TLC model checking + per-instruction trace validation'),
+ 'C06': dict(
+   category='model_checking',
+   text='CATCH/CROAK tests, the external-code flag write filter and the TERMINATE gate are stated in Vise.tla; ViseMC checks TerminateBlocks on model programs whose '
+        'external functions set/reset reserved, TERMINATE, LANG and client flags; on real runs TLC compares flag bits, control transfer and the blocked-run behaviour of '
+        'every iteration with the spec step applied to the logged pre-state.',
+   design_ref='DESIGN.md section 6 (C06)',
+   note='Trusted: TLC, verif hook, recording resource. READIN/INMATCH are charged to C03.',
+   technique='TLA+ interpreter spec + TLC model checking + per-instruction trace validation'),
 }
 
 NOT_YET = 'check not built yet in this round (planned: DESIGN.md section 6); not claimed until its machinery exists'
